@@ -417,7 +417,8 @@ def grammar_streams(pid, tier):
 prop("C01", kind="total", modules=["SasLexer.Properties.C01"],
      theorems=["SasLexer.kernel_C01_offsets_in_range", "SasLexer.kernel_C01_release_panics", "SasLexer.evalFlags_roundtrip"],
      variants=["dev", "rel", "rel-sep", "dev-sep"], corr_outcomes=True)
-prop("C06", modules=["SasLexer.Properties.C06"], theorems=["SasLexer.C06_table_total", "SasLexer.C06_keyword_rows"],
+prop("C06", modules=["SasLexer.Properties.C06"], theorems=["SasLexer.C06_table_total", "SasLexer.C06_keyword_rows",
+                                                            "SasLexer.C06_model_channels", "SasLexer.model_channels", "SasLexer.ChanR_sound", "SasLexer.mainLoop_chan", "SasLexer.finalizeLexing_chan"],
      variants=["rel", "dev-sep", "dev"])
 prop("C07", modules=["SasLexer.Properties.C07"], theorems=["SasLexer.C07_hex_decode_spec", "SasLexer.hexPairs_eq_spec"],
      variants=["rel", "dev-sep", "dev"])
